@@ -46,7 +46,7 @@ ASSUMPTIONS = [
     "a record made after the landing scope's completion callback already ran is only required not to raise",
     "log-order of the harness (single thread) is the recording order",
 ]
-MINIMUMS = {"same_instance_recorded_again": 300, "monitor:fold": 20000, "monitor:merged-view": 5000, "monitor:never-raises": 20000, "folds_of_3_or_more": 1000, "concurrent_recorders": 500, "records_outside_scope": 200, "records_after_completion": 50, "raising_merges": 500}
+MINIMUMS = {"same_instance_recorded_again": 300, "monitor:fold": 20000, "monitor:merged-view": 5000, "monitor:never-raises": 20000, "folds_of_3_or_more": 1000, "concurrent_recorders": 500, "records_outside_scope": 200, "records_after_completion": 50, "raising_merges": 500, "synchronous_root_scopes_around_event_loop_runs": 8}
 JOBS = {"quick": 4, "thorough": 16}
 LEVEL_TEXT = (
     "Trees of up to 3 nodes (all shapes, kinds, placements) with seeded record layouts are run under every gate-release order (DFS, capped), 4-5 node trees sampled; inside each "
